@@ -114,8 +114,15 @@ func (g *GAS) OnPersist(ic *interop.Context) error {
 		absAmount := big.NewInt(tx.SystemFee + tx.NetworkFee)
 		g.Burn(ic, tx.Sender(), absAmount)
 	}
+	// NEO's OnPersist has already run: at a committee update height this is the
+	// validators list of the next dBFT epoch, while the primary index of the block
+	// refers to the list of the ending one (that's how the reference
+	// implementation rewards the primary, so it's kept for the indexes that fit).
+	// The new list can be shorter if the number of validators is decreased by
+	// ValidatorsHistory at this height, the index must not run out of it then,
+	// such block would be unacceptable.
 	validators := g.NEO.GetNextBlockValidatorsInternal(ic.DAO)
-	primary := validators[ic.Block.PrimaryIndex].GetScriptHash()
+	primary := validators[int(ic.Block.PrimaryIndex)%len(validators)].GetScriptHash()
 	var netFee int64
 	for _, tx := range ic.Block.Transactions {
 		netFee += tx.NetworkFee
